@@ -83,20 +83,7 @@ func runC02(r *Run) {
 	r.Returns("chain/nom.(*MomentumTransaction).StealChanges", []string{"recv.Changes"}, "the committed patch is the transaction's Changes")
 
 	// (4) executed against the acknowledged view
-	r.Returns("vm.(*Supervisor).newBlockContext", []string{"vm_context.NewAccountContext(recv.chain.GetMomentumStore(a0.MomentumAcknowledged),recv.chain.GetAccountStore(a0.Address,a0.Previous()),recv.consensus.FixedPillarReader(a0.MomentumAcknowledged))"},
-		"ledger view = acknowledged momentum; account view = the block's previous; pillar reader fixed at the acknowledged momentum — none from a frontier getter")
-	r.Returns("vm.(*Supervisor).newMomentumContext", []string{"vm_context.NewMomentumVMContext(recv.chain.GetMomentumStore(a0.Previous()))"}, "a momentum is executed on the view of its previous")
-	gc := "verifier.(*accountVerifier).getContext"
-	r.Has(gc, "recv.chain.GetMomentumStore(a0.MomentumAcknowledged)", "the verifier reads the ledger as of the acknowledged momentum")
-	r.Has(gc, "recv.chain.GetAccountStore(a0.Address,a0.Previous())", "and the account as of the block's previous")
-	r.Returns(gc, []string{"nil, nil, verifier.ErrABMHeightMissing", "nil, nil, verifier.ErrABPrevHashMissing", "nil, nil, verifier.ErrABPrevHashMustBeZero", "nil, nil, verifier.ErrABMAMustNotBeZero", "nil, nil, verifier.ErrABMAMissing", "nil, nil, verifier.InternalError(recv.chain.GetFrontierMomentumStore().GetAccountStore(a0.Address).Frontier()#1)",
-		"nil, nil, verifier.InternalError(recv.chain.GetFrontierMomentumStore().GetAccountStore(a0.Address).ByHash(a0.PreviousHash)#1)", "nil, nil, verifier.ErrABPrevHasCementedOnTop", "nil, nil, verifier.ErrABPrevHeightExists", "nil, nil, verifier.ErrABPreviousMissing",
-		"recv.chain.GetAccountStore(a0.Address,a0.Previous()), recv.chain.GetMomentumStore(a0.MomentumAcknowledged), nil"}, "the frontier read of getContext can only choose among errors; the success return carries the two acknowledged views")
-	r.Has("consensus.(*consensus).FixedPillarReader", "store new(consensus.API).momentumStore = recv.chain.GetMomentumStore(a0)", "the pillar reader of a block is fixed at the identifier given (the acknowledged momentum)")
-	gms := "chain.(*momentumPool).GetMomentumStore"
-	r.Returns(gms, []string{"nil", "momentum.NewStore(recv.genesis,recv.chainManager.Get(a0))"}, "the momentum view handed out is the versioned view of exactly the identifier asked for")
-	r.Returns("chain.(*accountPool).GetAccountStore", []string{"recv.getStableAccountStore(a0)", "nil", "account.NewAccountStore(a0,recv.getAccountManager(a0).Get(a1))"}, "the account view handed out is the version asked for (stable, or the pool manager's version of that identifier)")
-	r.Branch("chain.(*accountPool).GetAccountStore", "eq(a1,recv.getStableAccountStore(a0).Identifier())", "the stable view is returned only when it is the version asked for")
+	contextProvenanceRules(r)
 
 	// (5) canonical patch order
 	ci := "common/db.(*memDBWrapper).changesInternal"
@@ -128,4 +115,25 @@ func fieldsMustBeRead(r *Run, fnName, field, why string) {
 		return
 	}
 	r.viol("K10-preimage", fnName, "reads "+field, fnName+" no longer reads "+field+": the value is not committed to by the hash", why, file, line)
+}
+
+// contextProvenanceRules: blocks and momentums are verified and executed against the views they
+// name (acknowledged momentum, the block's previous), never against a frontier getter (shared by
+// C02, C01, C03, C04).
+func contextProvenanceRules(r *Run) {
+	r.Returns("vm.(*Supervisor).newBlockContext", []string{"vm_context.NewAccountContext(recv.chain.GetMomentumStore(a0.MomentumAcknowledged),recv.chain.GetAccountStore(a0.Address,a0.Previous()),recv.consensus.FixedPillarReader(a0.MomentumAcknowledged))"},
+		"ledger view = acknowledged momentum; account view = the block's previous; pillar reader fixed at the acknowledged momentum — none from a frontier getter")
+	r.Returns("vm.(*Supervisor).newMomentumContext", []string{"vm_context.NewMomentumVMContext(recv.chain.GetMomentumStore(a0.Previous()))"}, "a momentum is executed on the view of its previous")
+	gc := "verifier.(*accountVerifier).getContext"
+	r.Has(gc, "recv.chain.GetMomentumStore(a0.MomentumAcknowledged)", "the verifier reads the ledger as of the acknowledged momentum")
+	r.Has(gc, "recv.chain.GetAccountStore(a0.Address,a0.Previous())", "and the account as of the block's previous")
+	r.Returns(gc, []string{"nil, nil, verifier.ErrABMHeightMissing", "nil, nil, verifier.ErrABPrevHashMissing", "nil, nil, verifier.ErrABPrevHashMustBeZero", "nil, nil, verifier.ErrABMAMustNotBeZero", "nil, nil, verifier.ErrABMAMissing", "nil, nil, verifier.InternalError(recv.chain.GetFrontierMomentumStore().GetAccountStore(a0.Address).Frontier()#1)",
+		"nil, nil, verifier.InternalError(recv.chain.GetFrontierMomentumStore().GetAccountStore(a0.Address).ByHash(a0.PreviousHash)#1)", "nil, nil, verifier.ErrABPrevHasCementedOnTop", "nil, nil, verifier.ErrABPrevHeightExists", "nil, nil, verifier.ErrABPreviousMissing",
+		"recv.chain.GetAccountStore(a0.Address,a0.Previous()), recv.chain.GetMomentumStore(a0.MomentumAcknowledged), nil"}, "the frontier read of getContext can only choose among errors; the success return carries the two acknowledged views")
+	r.Has("consensus.(*consensus).FixedPillarReader", "store new(consensus.API).momentumStore = recv.chain.GetMomentumStore(a0)", "the pillar reader of a block is fixed at the identifier given (the acknowledged momentum)")
+	gms := "chain.(*momentumPool).GetMomentumStore"
+	r.Returns(gms, []string{"nil", "momentum.NewStore(recv.genesis,recv.chainManager.Get(a0))"}, "the momentum view handed out is the versioned view of exactly the identifier asked for")
+	r.Returns("chain.(*accountPool).GetAccountStore", []string{"recv.getStableAccountStore(a0)", "nil", "account.NewAccountStore(a0,recv.getAccountManager(a0).Get(a1))"}, "the account view handed out is the version asked for (stable, or the pool manager's version of that identifier)")
+	r.Branch("chain.(*accountPool).GetAccountStore", "eq(a1,recv.getStableAccountStore(a0).Identifier())", "the stable view is returned only when it is the version asked for")
+
 }
